@@ -1203,7 +1203,28 @@ func c05ArgLiteralsBehindArityTest(c *core.Ctx, pkg *packages.Package) (bool, st
 						leaves = true
 					}
 				}
-				if strings.Contains(txt, "len(n.argsEvaluators)") && (strings.Contains(txt, "len(domain)") || strings.Contains(txt, "maxArgs")) && leaves {
+				// by role, not by name: the length of the receiver's argument list against the length of a Domain value (or maxArgs)
+				argsLen, domLen := false, strings.Contains(txt, "maxArgs")
+				scan := func(x ast.Node) {
+					ast.Inspect(x, func(m ast.Node) bool {
+						if call, ok := m.(*ast.CallExpr); ok && core.IsBuiltin(info, call, "len") && len(call.Args) == 1 {
+							if sel, ok := ast.Unparen(call.Args[0]).(*ast.SelectorExpr); ok && sel.Sel.Name == "argsEvaluators" {
+								argsLen = true
+							}
+							if tv, ok := info.Types[call.Args[0]]; ok {
+								if named := core.NamedOf(tv.Type); named != nil && named.Obj().Name() == "Domain" {
+									domLen = true
+								}
+							}
+						}
+						return true
+					})
+				}
+				scan(ifs.Cond)
+				if ifs.Init != nil {
+					scan(ifs.Init)
+				}
+				if argsLen && domLen && leaves {
 					guard = true
 				}
 				return true
